@@ -157,6 +157,27 @@ func c20File(c c05Case, viol func(sig, detail string), r *core.Run) {
 				break
 			}
 			want := filterWant(got)
+			if class == "hand-unsized" && !sameOrder(got, want) {
+				// the known finding is about dag-pb children opened early to learn
+				// their size; a raw block's size is on its link, so a raw block is
+				// never requested ahead of a block that precedes it depth-first
+				pos := map[string]int{}
+				for i, k := range want {
+					pos[k.KeyString()] = i
+				}
+				seen := map[string]bool{}
+				for _, k := range got {
+					if k.Prefix().Codec == cid.Raw {
+						for _, w := range want[:pos[k.KeyString()]] {
+							if !seen[w.KeyString()] {
+								viol("load-order hand-unsized-raw-block-early "+name, fmt.Sprintf("%s run %d: raw block %s is requested before %s, which precedes it depth-first (requests %s, depth-first order %s)", c, rep, short(k), short(w), shortList(got), shortList(want)))
+								break
+							}
+						}
+					}
+					seen[k.KeyString()] = true
+				}
+			}
 			if !sameOrder(got, want) {
 				viol("load-order "+class+" "+name, fmt.Sprintf("%s run %d: first requests %s, depth-first link order is %s", c, rep, shortList(got), shortList(want)))
 				break
